@@ -506,6 +506,7 @@ static void dump_opt(cfg_opt_t *o, int depth)
 	jhex(cfg_opt_name(o));
 	if (dump_values_only) {
 		fprintf(LOG, ",\"t\":\"%s\"", tname(o->type));
+		if (dump_values_only == 2) { fputs(",\"c\":", LOG); jhex(cfg_opt_getcomment(o)); }
 	} else {
 		fprintf(LOG, ",\"t\":\"%s\",\"f\":%d,\"c\":", tname(o->type), o->flags);
 		jhex(cfg_opt_getcomment(o));
@@ -808,7 +809,7 @@ static void run_op(char **t, int nt)
 		NEED(2); LOC(1);
 		ms = open_memstream(&buf, &sz);
 		if (!ms) die("open_memstream");
-		LOG = ms; dump_values_only = 1;
+		LOG = ms; dump_values_only = (nt > 2 && atoi(t[2])) ? 2 : 1;      /* vhash <ctx> 1: annotations included */
 		dump_cfg(loc_cfg, 0);
 		dump_values_only = 0; LOG = save;
 		fclose(ms);
